@@ -48,6 +48,8 @@ ASSUMPTIONS = [
     "parameters are only given after their class in the same argv; dict-like sources name a class only by its name",
     "answers are compared through a digest: equality of digests is taken for equality of answers",
     "single thread, single contextvars.Context per history",
+    "the items after a class help (--<cls>.help[=CLASS] ...) are options of the form --name=value (a bare --help there "
+    "is answered by the throw-away help parser itself: not modelled)",
     "parse_args(defaults=False) is only generated for parsers without parse-time links and for command lines without "
     "--print_config; env=True is generated with a process environment that holds no variable of the parser's prefix "
     "(the keywords then show in the carried parse_kwargs variable and, per the model, in how a sub-command is parsed)",
@@ -259,7 +261,7 @@ def gen_argv(rng, decl):
                     toks.append(["flag", cn + ".help"])
                     for _ in range(rng.choice([0, 0, 1, 2])):
                         toks.append(rng.choice([["opt", cn + "." + rng.choice(["a", "c", "zz"]), "3"], ["opt", "k", "2"],
-                                                ["flag", "help"], ["opt", cn + ".a", "bad"]]))
+                                                ["opt", "s", "q"], ["opt", cn + ".a", "bad"]]))
                 else:
                     toks.append(["opt", cn + ".help", cls])
                     if rng.random() < 0.45:
